@@ -76,6 +76,33 @@ def block_corpus(rng):
     return out
 
 
+def text_corpus2(rng, n):
+    """(a) several literally EMPTY values inside one container below a merge-control tag (they share one node object through the
+    constructor's memo); (b) three or more {{...}} metadata blocks in one source (every block is rewritten in place)"""
+    out = []
+    tags = ['!force', '!weak', '!del', '!merge', '!new', '!unsafe']
+    for _ in range(n):
+        t = rng.choice(tags)
+        k = rng.randint(2, 4)
+        keys = rng.sample(['verbose', 'debug', 'trace', 'dry', 'x'], k)
+        body = ', '.join(f'{kk}: ' for kk in keys)
+        out.append((f'{{opts: {t} {{{body}, level: 3}}, n: 1}}', f'{{opts: {{{body}, level: 3}}, n: 1}}'))
+        out.append((f'l: {t}\n  -\n  - 1\n  -\n  -\nm: {t} {{a: {{p: , q: }}}}\n', 'l:\n  -\n  - 1\n  -\n  -\nm: {a: {p: , q: }}\n'))
+        out.append((f'--- {t}\na:\nb:\nc:\n  -\n  -\n', 'a:\nb:\nc:\n  -\n  -\n'))
+        nb = rng.randint(3, 6)
+        ents, eras = [], []
+        for i in range(nb):
+            note = rng.choice(['a', 'long note ' * rng.randint(1, 3), 'z' * rng.randint(1, 30)])
+            pr = rng.choice(['', ", 'priority': 1", ", 'priority': -1"])
+            kind = '!metadata'          # the {{..}} syntax exists for !metadata and the dynamic tags, not for !force / !weak / !del
+            val = rng.choice(['1', 'text', '[1, 2]', '{q: 2}'])
+            ents.append(f"k{i}: {kind}{{{{'note': '{note}'{pr}}}}} {val}")
+            eras.append(f'k{i}: {val}')
+        out.append(('{' + ', '.join(ents) + '}', '{' + ', '.join(eras) + '}'))
+        out.append(('\n'.join(ents) + '\n', '\n'.join(eras) + '\n'))
+    return out
+
+
 def no_notnew(doc):
     return not gen.has_tag(doc, '!notnew')
 
@@ -116,6 +143,8 @@ def run(rep, tier, rng):
         rep.case(gen.render(d), deep_tag(d), sample=gen.render(d))
     base.run_oracle(rep, 'C01', 'tagged document vs tag-erased twin through PyYAML', docs, judge, in_domain=no_notnew, show=lambda d: gen.render(d))
     base.run_oracle(rep, 'C01', 'block-style corpus', block_corpus(rng), judge_text, show=lambda p: dict(tagged=p[0], erased=p[1]))
+    base.run_oracle(rep, 'C01', 'empty values below a tagged container; three or more metadata blocks in one source', text_corpus2(rng, 25 if tier == 'quick' else 400), judge_text,
+                    show=lambda p: dict(tagged=p[0], erased=p[1]))
 
 
 def replay(data):
